@@ -187,6 +187,78 @@ for i, op in enumerate(("insert", "insert_key_value", "entry_or_insert")):
 add("c03_checked_full_tok", "c03::h_checked_full_tok::<{N}>()", ["C03", "C02"], Q3, T3, profile="both",
     fn="Map::checked_insert rejected on a full map", shape="S_tok")
 
+# ------------------------------------------------------------------ C07 (Set model), C12 for sets
+for sh, T in (("u8", "u8"), ("id", "Key")):
+    S = "S_" + sh
+    add("c07_insert_" + sh, "c07::h_set_insert::<%s, {N}>(0)" % T, ["C07", "C12", "C05"], N_(1, 2), N_(1, 2, 3, 4), profile="both", fn="Set::insert", shape=S)
+    add("c07_replace_" + sh, "c07::h_set_insert::<%s, {N}>(1)" % T, ["C07", "C12", "C05"], N_(1, 2), N_(1, 2, 3, 4), fn="Set::replace", shape=S)
+    add("c07_lookup_" + sh, "c07::h_set_lookup::<%s, {N}>()" % T, ["C07", "C12", "C06"], Q3, T4, fn="Set::contains, Set::get", shape=S)
+    for i, op in enumerate(("remove", "take", "remove_borrowed", "take_borrowed")):
+        add("c07_%s_%s" % (op, sh), "c07::h_set_remove::<%s, {N}>(%d)" % (T, i), ["C07", "C05"] + (["C12"] if "take" in op else []),
+            Q3 if i < 2 else N_(2), T4 if i < 2 else N_(3), fn="Set::" + op.replace("_borrowed", ""), shape=S)
+    add("c07_retain_" + sh, "c07::h_set_retain::<%s, {N}>()" % T, ["C07", "C05"], Q3, T3, fn="Set::retain", shape=S)
+    add("c07_clear_" + sh, "c07::h_set_clear_drain::<%s, {N}>(false)" % T, ["C07"], Q3, T3, fn="Set::clear", shape=S)
+    add("c07_drain_" + sh, "c07::h_set_clear_drain::<%s, {N}>(true)" % T, ["C07", "C10"], Q3, T3, fn="Set::drain, SetDrain::next/len", shape=S)
+    add("c07_extend_" + sh, "c07::h_set_extend::<%s, {N}, {L}>(false)" % T, ["C07", "C16"], [{"N": 1, "L": 2}, {"N": 2, "L": 2}], [{"N": 2, "L": 3}, {"N": 3, "L": 3}],
+        unwind="max(N,L)+2", fn="Extend<T>::extend for Set", shape=S)
+    add("c07_extend_ref_" + sh, "c07::h_set_extend::<%s, {N}, {L}>(true)" % T, ["C07", "C16"], [{"N": 2, "L": 2}], [{"N": 2, "L": 3}, {"N": 3, "L": 3}],
+        unwind="max(N,L)+2", fn="Extend<&T>::extend for Set", shape=S)
+
+# ------------------------------------------------------------------ C09 borrowing iterators, C05 observations
+for sh, K, V in (("u8", "u8", "u8"), ("id", "Key", "u8")):
+    S = "S_" + sh
+    for i, op in enumerate(("iter", "keys", "values", "ref_into_iter")):
+        add("c09_%s_%s" % (op, sh), "c09::h_iter::<%s, %s, {N}>(%d)" % (K, V, i), ["C09", "C06"] + (["C12"] if op in ("iter", "keys") and sh == "id" else []),
+            Q3 if sh == "u8" else N_(2), T3 if sh == "u8" else N_(3), unwind="N+4",
+            fn={"iter": "Map::iter, Iter::next/len/size_hint/count/clone", "keys": "Map::keys, Keys::*", "values": "Map::values, Values::*", "ref_into_iter": "IntoIterator for &Map"}[op], shape=S)
+    for i, op in enumerate(("iter_mut", "values_mut", "mut_into_iter")):
+        add("c09_%s_%s" % (op, sh), "c09::h_iter_mut::<%s, %s, {N}>(%d)" % (K, V, i), ["C09", "C05"], Q3 if sh == "u8" else N_(2), T3 if sh == "u8" else N_(3), unwind="N+4",
+            fn={"iter_mut": "Map::iter_mut, IterMut::*", "values_mut": "Map::values_mut, ValuesMut::*", "mut_into_iter": "IntoIterator for &mut Map"}[op], shape=S)
+    add("c09_set_iter_" + sh, "c09::h_set_iter::<%s, {N}>()" % K, ["C09", "C06"] + (["C12"] if sh == "id" else []), Q3, T3, unwind="N+4", fn="Set::iter, SetIter::*, IntoIterator for &Set", shape=S)
+    add("c05_observe_" + sh, "c09::h_observe::<%s, %s, {N}>()" % (K, V), ["C05"], Q3, T3, unwind="N+3", fn="Map::iter/len/is_empty/capacity/get (observations)", shape=S)
+
+# ------------------------------------------------------------------ C10 consuming iterators
+for sh, K, V in (("u8", "u8", "u8"), ("id", "Key", "u8")):
+    S = "S_" + sh
+    for i, op in enumerate(("into_iter", "into_keys", "into_values")):
+        add("c10_%s_%s" % (op, sh), "c10::h_into_iter::<%s, %s, {N}>(%d)" % (K, V, i), ["C10"] + (["C12"] if sh == "id" and i < 2 else []),
+            Q3 if sh == "u8" else N_(2), T3 if sh == "u8" else N_(3), unwind="N+4", fn="Map::%s and its iterator" % op, shape=S)
+    add("c10_drain_" + sh, "c10::h_drain::<%s, %s, {N}>()" % (K, V), ["C10", "C01"], Q3 if sh == "u8" else N_(2), T3 if sh == "u8" else N_(3), unwind="N+3", fn="Map::drain, Drain::next/len/size_hint/drop", shape=S)
+add("c10_into_iter_count_u8", "c10::h_into_iter_count::<u8, u8, {N}>()", ["C10"], Q3, T3, fn="IntoIter::count", shape="S_u8")
+add("c10_set_into_iter_u8", "c10::h_set_into_iter::<u8, {N}>()", ["C10"], Q3, T3, unwind="N+4", fn="Set::into_iter, SetIntoIter::*", shape="S_u8")
+add("c10_set_into_iter_id", "c10::h_set_into_iter::<Key, {N}>()", ["C10", "C12"], N_(2), N_(3), unwind="N+4", fn="Set::into_iter, SetIntoIter::*", shape="S_id")
+
+# ------------------------------------------------------------------ C11 entry API
+for sh, K, V in (("u8", "u8", "u8"), ("id", "Key", "u8")):
+    S = "S_" + sh
+    for i, op in enumerate(("or_insert", "or_insert_with", "or_insert_with_key", "or_default", "and_modify")):
+        add("c11_%s_%s" % (op, sh), "c11::h_entry_or::<%s, %s, {N}>(%d)" % (K, V, i), ["C11", "C12", "C05"], N_(1, 2), N_(1, 2, 3), profile="both" if i == 0 else "debug",
+            fn="Map::entry, Entry::%s" % op, shape=S)
+    for i, op in enumerate(("insert", "into_mut_into_key", "remove", "remove_entry")):
+        add("c11_direct_%s_%s" % (op, sh), "c11::h_entry_direct::<%s, %s, {N}>(%d)" % (K, V, i), ["C11", "C12", "C05"], N_(1, 2), N_(1, 2, 3),
+            fn="OccupiedEntry::{key,get,get_mut,%s} / VacantEntry::{key,insert,into_key}" % op, shape=S)
+
+# ------------------------------------------------------------------ C14 equality, C15 clone (view)
+QP = NM([(0, 0), (0, 1), (1, 1), (2, 1), (1, 2), (2, 2)])
+TP = NM([(a, b) for a in range(4) for b in range(4)])
+add("c14_map_eq_u8", "c14::h_map_eq::<u8, u8, {N}, {M}>()", ["C14"], QP, TP, unwind="max(N,M)+2", fn="PartialEq::eq for Map", shape="S_u8")
+add("c14_map_eq_id", "c14::h_map_eq::<Key, Key, {N}, {M}>()", ["C14"], NM([(2, 2)]), NM([(2, 3), (3, 3)]), unwind="max(N,M)+2", fn="PartialEq::eq for Map", shape="S_id")
+add("c14_set_eq_u8", "c14::h_set_eq::<u8, {N}, {M}>()", ["C14"], QP, TP, unwind="max(N,M)+2", fn="PartialEq::eq for Set", shape="S_u8")
+for sh, K, V in (("u8", "u8", "u8"), ("id", "Key", "u8")):
+    add("c15_clone_view_" + sh, "c14::h_clone_view::<%s, %s, {N}>()" % (K, V), ["C15"], Q3, T3, fn="Clone::clone for Map", shape="S_" + sh)
+    add("c15_set_clone_view_" + sh, "c14::h_set_clone_view::<%s, {N}>()" % K, ["C15"], Q3, T3, fn="Clone::clone for Set", shape="S_" + sh)
+
+# ------------------------------------------------------------------ C16 bulk construction
+for sh, K, V in (("u8", "u8", "u8"), ("id", "Key", "u8")):
+    S = "S_" + sh
+    add("c16_from_iter_" + sh, "c16::h_from_iter::<%s, %s, {N}, {L}>(0)" % (K, V), ["C16"], [{"N": 1, "L": 2}, {"N": 2, "L": 3}] if sh == "u8" else [{"N": 2, "L": 3}],
+        [{"N": 2, "L": 4}, {"N": 3, "L": 4}, {"N": 3, "L": 5}] if sh == "u8" else [{"N": 2, "L": 4}, {"N": 3, "L": 4}], unwind="max(N,L)+2", fn="FromIterator::from_iter for Map", shape=S)
+    add("c16_collect_" + sh, "c16::h_from_iter::<%s, %s, {N}, {L}>(1)" % (K, V), ["C16"], [{"N": 2, "L": 3}], [{"N": 3, "L": 4}], unwind="max(N,L)+2", fn="Iterator::collect into Map", shape=S)
+    add("c16_from_array_" + sh, "c16::h_from_array::<%s, %s, {N}>()" % (K, V), ["C16"], Q3, T3, fn="From<[(K,V);N]> for Map", shape=S)
+    add("c16_set_from_iter_" + sh, "c16::h_set_from::<%s, {N}, {L}>(0)" % K, ["C16"], [{"N": 2, "L": 3}], [{"N": 2, "L": 4}, {"N": 3, "L": 4}], unwind="max(N,L)+2", fn="FromIterator::from_iter for Set", shape=S)
+    add("c16_set_collect_" + sh, "c16::h_set_from::<%s, {N}, {L}>(1)" % K, ["C16"], [{"N": 2, "L": 3}], [{"N": 3, "L": 4}], unwind="max(N,L)+2", fn="Iterator::collect into Set", shape=S)
+    add("c16_set_from_array_" + sh, "c16::h_set_from_array::<%s, {N}>()" % K, ["C16"], Q3, T3, fn="From<[T;N]> for Set", shape=S)
+
 
 def units_for(prop):
     return [u for u in UNITS if prop in u.props or "*" in u.props]
